@@ -222,7 +222,7 @@ def _eval_rows(rows, params):
         if name == 'math.isclose': return math.isclose(*args, **kw)
         if name in ('abs', 'round', 'float', 'min', 'max', 'int', 'bool'):
             return {'abs': abs, 'round': round, 'float': float, 'min': min, 'max': max, 'int': int, 'bool': bool}[name](*args, **kw)
-        if name in ('math.floor', 'math.ceil', 'math.trunc', 'math.fabs'):
+        if name in ('math.floor', 'math.ceil', 'math.trunc', 'math.fabs', 'math.degrees', 'math.radians', 'math.sqrt', 'math.copysign', 'math.isnan', 'math.isinf', 'math.isfinite'):
             return getattr(math, name.split('.')[1])(*args)
         if f[0] == 'attr' and f[2] == 'bit_length' and not args:
             return ev(f[1], m).bit_length()
@@ -655,6 +655,22 @@ def enc_number_points(program, n, signed, res, rows):
             want = ('raise', 'ValueError')
         if got != want and not (got[0] == 'return' and want[0] == 'return' and isinstance(got[1], (int, float)) and not isinstance(got[1], bool) and got[1] == want[1]):
             bad.append((f"value {v!r} = {k} ticks", want, got))
+    # values between two ticks: rounded to the nearest tick (0.4 down, 0.6 up), also across the range ends
+    for k in sorted({0, 1, 7, hi - 1, hi, lo, lo - 1, (lo + hi) // 2}):
+        for frac in (0.4, 0.6):
+            v = (k + frac) * res
+            try:
+                q = int(round(v / res))
+            except (OverflowError, ZeroDivisionError):
+                continue
+            if q != k + (1 if frac > 0.5 else 0) or abs(k) > 2 ** 50:
+                continue          # float noise puts this value on the other side: not a clean point
+            if n < 2 and q == top:
+                continue
+            got = _eval_rows(rows, {'$V': v})
+            want = ('return', q if q >= 0 else q + (1 << n)) if lo <= q <= hi else ('raise', 'ValueError')
+            if got != want and not (got[0] == 'return' and want[0] == 'return' and isinstance(got[1], (int, float)) and not isinstance(got[1], bool) and got[1] == want[1]):
+                bad.append((f"value {v!r} = {k + frac} ticks", want, got))
     got = _eval_rows(rows, {'$V': None})
     want = ('return', expected_na(n, signed))
     if got != want and n >= 2:
@@ -772,7 +788,7 @@ def sent_sign_agree(chk, program, sites=None):
                 continue
             chk.check(n < 2 or gna == ('return', dna), 'SENT-AGREE', f"encode_number::{inst}", file=UT, line=f['line'], func='encode_number',
                       expected=f"encoder's pattern for None == decoder's not-available constant ({dna})", found=gna, detail='decided on points')
-            wrapbad = [b for b in bad if b[1][0] == 'return' and b[0] != 'value None']
+            wrapbad = [b for b in bad if b[1][0] == 'return' and b[0] != 'value None' and not b[0].endswith(('.4 ticks', '.6 ticks'))]      # (rounding is ENC-RANGE's)
             chk.check(not wrapbad, 'SIGN-AGREE', f"encode_number::{inst}", file=UT, line=f['line'], func='encode_number',
                       expected='in-range tick counts written as themselves (negative ones in two\'s complement)', found='ok (on points)' if not wrapbad else [f"{d}: expected {w}, got {g}" for d, w, g in wrapbad[:3]])
             continue
